@@ -180,11 +180,11 @@ Section FromPb.
     | Some PbNone => SigNil
     end.
 
-  (* NewPartialCert: first participant (0 if none); nil signature dereferenced *)
+  (* NewPartialCert: first participant (0 if none); a nil signature has no signer *)
   Definition new_partial_cert (s : qsig) (h : bytes) : result pcert :=
     match sig_participants s with
     | Ok ids => Ok (mkPC (hd 0 ids) s h)
-    | _ => Panic
+    | _ => Ok (mkPC 0 s h)
     end.
 
   Definition from_pb_pc (o : option pb_pc) : result pcert :=
@@ -229,15 +229,16 @@ Section FromPb.
                           (from_pb_sync (pt_sync m))
     end.
 
-  (* BlockFromProto: NewBlock then SetTimestamp(block.Timestamp.AsTime()); a nil *Block is dereferenced *)
+  (* BlockFromProto: a nil *Block yields nil ([Reject] = "no block"); otherwise NewBlock then
+     SetTimestamp(block.Timestamp.AsTime()) *)
   Definition from_pb_block (o : option pb_block) : result block :=
     match o with
-    | None => Panic
+    | None => Reject
     | Some b => Ok (mkBlock (fix32 (pbb_parent b)) (u32 (pbb_proposer b)) (pbb_cmds b) (from_pb_qc (pbb_qc b))
                             (u64 (pbb_view b)) (from_pb_ts (pbb_ts b)))
     end.
 
-  (* ProposalFromProto *)
+  (* ProposalFromProto; [Reject] = the message carries no block (ProposeMsg.Block is nil) *)
   Definition from_pb_proposal (o : option pb_proposal) : result proposal :=
     let blk := match o with None => None | Some p => pp_block p end in
     let agg := match o with None => None | Some p => pp_agg p end in
@@ -252,12 +253,13 @@ Section FromPb.
     let t := from_pb_timeout (Some m) in
     mkTimeout peer (tm_view t) (tm_viewsig t) (tm_msgsig t) (tm_sync t).
 
-  (* server.go serviceImpl.Propose: id := peer (or the block's proposer with a Kauri tree);
-     proposal.Block.Proposer = uint32(id); ProposalFromProto; proposeMsg.ID = id *)
+  (* server.go serviceImpl.Propose: a proposal without a block is dropped ([Reject] = nothing delivered);
+     id := peer (or the block's proposer with a Kauri tree); proposal.Block.Proposer = uint32(id);
+     ProposalFromProto; proposeMsg.ID = id *)
   Definition server_propose (kauri : bool) (peer : rid) (p : pb_proposal) : result proposal :=
     let id := if kauri then match pp_block p with Some b => u32 (pbb_proposer b) | None => 0 end else peer in
     match pp_block p with
-    | None => Panic
+    | None => Reject
     | Some b =>
         let b' := mkPbBlock (pbb_parent b) (pbb_qc b) (pbb_view b) (pbb_cmds b) (u32 id) (pbb_ts b) in
         match from_pb_proposal (Some (mkPbProposal (Some b') (pp_agg p))) with
@@ -327,7 +329,7 @@ Section Hashing.
   Definition qf_accepts (h : bytes) (reply : option pb_block) : result bool :=
     match from_pb_block bls_decode reply with
     | Ok blk => Ok (bytes_eqb (fix32 h) (block_hash blk))
-    | Reject => Reject
+    | Reject => Panic                       (* block.Hash() on the nil block *)
     | Panic => Panic
     end.
 
@@ -375,8 +377,8 @@ Section Wf.
 
   Definition wf_qc (q : qc) : bool := wf_sig (qc_sig q) && (qc_view q <? 2^64) && len32 (qc_hash q).
   Definition wf_pc (c : pcert) : bool :=
-    wf_sig (pc_sig c) && negb (is_nil (pc_sig c)) && len32 (pc_hash c)
-    && match sig_participants (pc_sig c) with Ok ids => N.eqb (pc_signer c) (hd 0 ids) | _ => false end.
+    wf_sig (pc_sig c) && len32 (pc_hash c)
+    && match sig_participants (pc_sig c) with Ok ids => N.eqb (pc_signer c) (hd 0 ids) | _ => N.eqb (pc_signer c) 0 end.
   Definition wf_tc (t : tc) : bool := wf_sig (tc_sig t) && (tc_view t <? 2^64).
   Definition wf_agg (a : aggqc) : bool :=
     forallb (fun e => (fst e <? 2^32) && wf_qc (snd e)) (agg_qcs a) && wf_sig (agg_sig a) && (agg_view a <? 2^64).
